@@ -64,16 +64,19 @@ def run(ctx):
     bound, cap = (3, 400000) if thorough else (2, 60000)
     for layer, extra in LAYERS:
         for n in ((2,) if layer == "L_hilbert" else (1, 2, 3)):
-            for interp in ("direct", "nn", "linear"):
+            for interp in ("direct", "nn", "linear", "clamp", "affine_nn"):
                 js.append(Job("explore_%s_%s_N%d" % (layer, interp, n), SRC, ["-O1", "-w", "-pthread"] + extra, ["VP_LAYER=" + layer], ["explore", bound, cap, ctx.tier, "/%s/N%d/" % (interp, n)], timeout=1500,
                               key_prefix="explore_%s_%s_N%d" % (layer, interp, n)))
+    js.append(Job("explore_L_strided_linear_N4", SRC, ["-O1", "-w", "-pthread"], ["VP_LAYER=L_strided"], ["explore", bound, cap, ctx.tier, "/linear/N4/"], timeout=1500, key_prefix="explore_L_strided_linear_N4"))
     # function-granular exploration: every entry into a covfie function is a scheduling point as well (-finstrument-functions)
     FN = ["-O0", "-w", "-pthread", "-DVP_FN_POINTS", "-finstrument-functions", "-finstrument-functions-exclude-file-list=include/vp,harness/,/usr/"]
     for layer, extra in LAYERS:
         for n in ((2,) if layer == "L_hilbert" else (1, 2)):
-            for interp in ("direct", "nn", "linear"):
+            for interp in ("direct", "nn", "linear", "clamp", "affine_nn"):
                 if interp == "linear" and not thorough:
                     continue   # one linear lookup has ~130 function entries; bound 2 over it is a thorough-tier item
+                if not thorough and n == 1 and layer != "L_hilbert":
+                    continue   # quick: the 2-D configurations only
                 js.append(Job("explorefn_%s_%s_N%d" % (layer, interp, n), SRC, FN + extra, ["VP_LAYER=" + layer], ["explore_fn", 2, cap, ctx.tier, "/%s/N%d/" % (interp, n)], timeout=1500,
                               key_prefix="explorefn_%s_%s_N%d" % (layer, interp, n)))
     # cold-start exploration: every schedule in a freshly forked child (statics / lazily built tables in their initial state),
@@ -96,7 +99,7 @@ def run(ctx):
     # compile each distinct (src, flags, defines) once: the tsan jobs of one layer share a binary
     for j in js:
         if j.name.startswith("explore"):
-            j.env = dict(j.env or {}, VP_CONFIG_BUDGET_S="150" if thorough else "40")
+            j.env = dict(j.env or {}, VP_CONFIG_BUDGET_S="150" if thorough else "75")
     total = core.build_and_run(ctx, js)
     ex = {k: v for k, v in total.items()}
     scheds = int(sum(j.stats.get("traces", 0) for j in js if j.name.startswith("explore") and j.stats))
